@@ -1,113 +1,152 @@
-"""C14 - procedural generators: index arithmetic, element counts, literal tables, switches, homogeneity."""
+"""C14 - procedural generators: generated index tables, element counts, switches, corner arithmetic, homogeneity, unit directions."""
 from __future__ import annotations
-import ast
+import ast, math
 from fractions import Fraction
-from .. import au, sym
+from .. import au, sym, order
 from ..sym import Poly
 from ..core import AnalysisError
 from ..rules import gen_c1419 as G
 from ..rules import dim_c1419 as D
+from ..rules import hi_exec as X
+from ..rules import hi_conn as C
+from ..rules.hi_conn import GenSpec
 
 FLAT, SHAPES, RINGS, LINES = "procedural.flat", "procedural.shapes", "procedural.rings", "procedural.polylines"
+TRANS = "procedural.transformations"
 PROC_MODULES = [FLAT, SHAPES, RINGS, LINES, "procedural.dual", "procedural.transformations"]
 
 EXPLANATION = (
-    "Static conformance of the procedural generators, decided on the source only: each generator is walked symbolically once "
-    "per assignment of its boolean switches; |V|, |F_k| and every stored vertex index are derived as polynomials in the integer "
-    "parameters (loop variables with ranges, `e % N` as [0,N-1]). Decided for all parameter values at once: row stride of "
-    "row-major grids equals the inner trip count (R-STRIDE), every stored index lies in [0,|V|) (R-RANGE, corner evaluation of the "
-    "multilinear forms + coefficient signs; alarms only with a concrete witness found by evaluating the extracted expressions on "
-    "parameters <= 6), element counts and the Euler identity of closed shapes (R-COUNT), orientation/closedness of literal face "
-    "tables (R-TABLE), positional forwarding of switches (R-RESOLVE) and dimensional homogeneity / dependence on radius and centre "
-    "(R-DIM); additionally corner arithmetic of quad / hexahedron_4pts / axis_aligned_cube as affine forms, the divisor of full-turn "
-    "angles, and the wiring of chain_of_vertices' loop switch. Manifoldness and geometry beyond these clauses are not decided.")
+    "Static conformance of the procedural generators, decided on the source only (nothing of the repository is imported or run). "
+    "Connectivity: the syntax tree of each generator (and of the package helpers it calls) is evaluated over the domain "
+    "{integers, booleans, exact rationals, sequences and arrays of known length, mesh containers} with every other value opaque, once per "
+    "assignment of its integer parameters in a small admissible box (each resolution from its minimum to minimum+3, unequal values "
+    "included) and of its boolean switches; the resulting literal index tables are checked like a literal table: indices in [0,|V|), "
+    "no repeated face, consistent orientation, closedness / border loops, one component, documented counts and the Euler characteristic "
+    "of the named shape (R-RANGE, R-TABLE, R-COUNT; bounded in the parameters, exact in everything else; a generator whose effect "
+    "on the mesh depends on an opaque value is reported as undecided). Because statements are evaluated with their semantics the "
+    "verdict does not depend on how the generator is written. Geometry: a forward abstract interpretation (length-degree, affine "
+    "weight, must-dependence, unit-vector facts modulo sin^2+cos^2=1) decides homogeneity, dependence on radius / centre and that a "
+    "radius multiplies a unit direction (R-DIM); corner arithmetic of quad / hexahedron_4pts / axis_aligned_cube is decided on the "
+    "linear forms of the generated vertices; additionally positional forwarding of switches, the divisor of full-turn angles and "
+    "the reachability of the ring apex bracket. Manifoldness beyond edge-manifoldness and geometry beyond these clauses are not decided.")
 
 RULES = {
-    "C14-S1": "in a row-major grid generator the coefficient of every row-like loop variable (or `(i+k) % A`) in a stored vertex "
-              "index equals the number of vertices appended per row (inner trip count); column-like variables have coefficient 1",
+    "C14-S1": "grid consistency: a vertex attribute written for key k carries the leading coordinates (or the parameter samples) of "
+              "vertex k, and every sample of a parameter linspace is consumed, for every small admissible parameter assignment",
     "C14-N1": "every index stored into faces / edges / cells, every vertex-attribute key and every vertex store lies in [0, |V|) for "
-              "all admissible parameters and all switch values (alarm only with a concrete witness)",
-    "C14-C1": "symbolic |V| and |F_k| equal the documented polynomials for every switch value; for closed shapes "
-              "|V| - sum(k |F_k|)/2 + sum |F_k| is identically the Euler characteristic of the named shape",
-    "C14-T1": "literal face tables: indices < number of appended vertices, no repeated face, each directed edge at most once "
-              "(consistent orientation); closed shapes: each undirected edge exactly twice, every vertex used, V-E+F = 2",
+              "all small admissible parameters (unequal resolutions and minimal values included) and all switch values; evaluable "
+              "index code does not raise (alarm only with a concrete witness)",
+    "C14-C1": "|V|, |F_k| (and |E| of polylines) equal the documented polynomials for every switch value; "
+              "V - E + F of the generated faces is the Euler characteristic of the named shape "
+              "(sphere-like 2, torus 0, disks 1, open cylinders 0)",
+    "C14-T1": "generated face tables: no repeated face, no face with a repeated vertex, each directed edge at most once (consistent "
+              "orientation); closed shapes: each undirected edge exactly twice; open shapes: at most twice with one border loop "
+              "(disks) or two (annuli); one connected component; a volume cell is a permutation of all vertices; vector_field links "
+              "vertex 2i with 2i+1",
     "C14-P1": "a variable passed positionally to a package function never lands in a *defaulted* parameter of another name while "
               "the callee has a parameter of the variable's own name",
-    "C14-Q1": "corner arithmetic of quad / hexahedron_4pts / axis_aligned_cube: every corner is an affine combination (weights sum to 1) "
-              "of the given points, the requested corners are among them, a face taken in face order is a parallelogram "
-              "(alternating corner sum 0) and the top face of the box is the bottom face translated",
-    "C14-A1": "a full turn `2*pi*x/T` in a closed generator is divided by the trip count of the loop variable x it multiplies "
-              "(otherwise the seam does not close when the two resolutions differ)",
-    "C14-W1": "chain_of_vertices: `loop=True` takes the wrapping pairs, `loop=False` the non-wrapping ones, over all vertices",
-    "C14-R1": "ring: the apex-height search can reach every admissible angle defect: either the loop has an update that moves a "
-              "bracket end outside the current bracket (not a convex combination of the two ends), taken when the target exceeds "
+    "C14-Q1": "corner arithmetic of quad / hexahedron_4pts / axis_aligned_cube (read off the generated vertices): every corner is an "
+              "affine combination (weights sum to 1) of the given points, the requested corners are among them, a face taken in face "
+              "order is a parallelogram (alternating corner sum 0) and the top face of the box is the bottom face translated",
+    "C14-A1": "a full turn `2*pi*x/T` in a closed generator (or a helper it calls) is divided by the trip count of the loop / "
+              "comprehension variable x it multiplies (otherwise the seam does not close when the two resolutions differ)",
+    "C14-W1": "chain_of_vertices: `loop=True` yields the cycle over all vertices, `loop=False` the open path (generated edge tables)",
+    "C14-R1": "ring: the apex-height search can reach every admissible angle defect: either a loop has an update that moves the "
+              "upper bracket end outside the current bracket (not a convex combination of the two ends), taken when the target exceeds "
               "the defect at the upper end, or the initial upper end is at least 2*pi/(2*pi - max_defect) high "
-              "(a loop that only shrinks [P1,P2] cannot leave its initial bracket)",
+              "(a search that only shrinks [lo,hi] cannot leave its initial bracket)",
     "C14-U1": "a direction that is scaled by a radius parameter (radius * d, or the coefficient vector of the radius in an explicit "
-              "Vec(x, y, z)) is a proved unit vector: a normalisation, a rotation of a unit vector, or components whose squares "
-              "sum to 1 identically (modulo sin^2+cos^2 = 1, sqrt(E)^2 = E, |u| = 1 of unit vectors) - otherwise the shape does not "
-              "have the requested radius",
-    "C14-D1": "vertex coordinates of the sphere / torus / cylinder generators have length-degree 1, sums are homogeneous, the result is "
-              "translated by the centre (affine weight 1) and depends on every radius / centre / end-point parameter",
+              "Vec(x, y, z)) is not a vector whose squared components provably sum to something else than 1 "
+              "(modulo sin^2+cos^2 = 1, sqrt(E)^2 = E, |u| = 1 of unit vectors); proved unit: a normalisation, a rotation of a unit "
+              "vector, components whose squares sum to 1 identically",
+    "C14-M1": "a generator never mutates shared state in place: a module-level table (list / array display), an entry of a "
+              "module-level cache or the result of an lru_cache'd helper is only written through a copy that owns what is written "
+              "(`T[:]` of an array is a view, `copy.copy(mesh)` shares its containers); a redundant copy is never a violation",
+    "C14-D1": "vertex coordinates of the sphere / torus / cylinder generators (and of spherify_vertices / cylindrify_edges) have "
+              "length-degree 1, sums are homogeneous, the result is translated by the centre (affine weight 1) and depends on "
+              "every radius / centre / end-point parameter",
 }
 
 ASSUMPTIONS = [
-    "admissible resolutions: unit_grid nu,nv >= 2; torus segments >= 3; sphere_uv n_lat >= 2, n_long >= 3; cylinder N >= 3; "
-    "ring N >= 3 (guarded by the function), n_cover >= 1",
+    "admissible resolutions: unit_grid nu,nv >= 2; unit_triangle nu >= nv >= 2; torus segments >= 3; sphere_uv n_lat >= 2, n_long >= 3; "
+    "cylinder N >= 3; ring N >= 3 (guarded by the function), n_cover >= 1",
+    "the connectivity clauses are decided for every parameter assignment in [min, min+3] per integer parameter (bounded)",
     "documented element counts are the ones stated in the docstrings / pinned by tests/test_procedural.py "
     "(sphere_uv: n_lat*n_long + 2 vertices)",
 ]
 
-# (module, function) -> admissible minimum of the integer parameters
-ADMISSIBLE = {
-    (FLAT, "unit_grid"): {"nu": 2, "nv": 2},
-    (SHAPES, "torus"): {"major_segments": 3, "minor_segments": 3},
-    (SHAPES, "sphere_uv"): {"n_lat": 2, "n_long": 3},
-    (SHAPES, "cylinder"): {"N": 3},
-    (RINGS, "ring"): {"N": 3, "n_cover": 1},
-    (RINGS, "flat_ring"): {"N": 1, "n_cover": 1},
-}
-STRIDE_FUNCS = [(FLAT, "unit_grid"), (SHAPES, "torus"), (SHAPES, "sphere_uv")]
-RANGE_FUNCS = [(FLAT, "unit_grid"), (FLAT, "quad"), (FLAT, "triangle"), (SHAPES, "torus"), (SHAPES, "sphere_uv"),
-               (SHAPES, "cylinder"), (SHAPES, "tetrahedron"), (SHAPES, "hexahedron"), (SHAPES, "icosahedron"),
-               (RINGS, "ring"), (RINGS, "flat_ring"), (LINES, "vector_field")]
-VERTEX_KINDS = ("faces", "edges", "cells", "vertices-attr", "vertices-store")
 
-# documented counts: V, faces {arity: polynomial} per switch assignment, Euler characteristic if closed
-def _doc_unit_grid(sw):
-    return {"V": "nu*nv", "F": {3: "2*(nu-1)*(nv-1)"} if sw["triangulate"] else {4: "(nu-1)*(nv-1)"}, "chi": None}
+# ----------------------------------------------------------------------- documented counts
+def _doc_unit_grid(p):
+    return {"V": "nu*nv", "F": {3: "2*(nu-1)*(nv-1)"} if p.get("triangulate") else {4: "(nu-1)*(nv-1)"}}
 
 
-def _doc_torus(sw):
+def _doc_unit_triangle(p):
+    return {"V": "nv*(nv+1)/2", "F": {3: "(nv-1)*(nv-1)"}}
+
+
+def _doc_torus(p):
     n = "major_segments*minor_segments"
-    return {"V": n, "F": {3: "2*" + n} if sw["triangulate"] else {4: n}, "chi": 0}
+    return {"V": n, "F": {3: "2*" + n} if p.get("triangulate") else {4: n}}
 
 
-def _doc_sphere_uv(sw):
+def _doc_sphere_uv(p):
     # only the vertex count is documented / pinned by the tests; the faces are constrained by the Euler identity
-    return {"V": "n_lat*n_long+2", "F": None, "chi": 2}
+    return {"V": "n_lat*n_long+2"}
 
 
-def _doc_cylinder(sw):
-    if sw["fill_caps"]:
-        return {"V": "2*N+2", "F": None, "chi": 2}
-    return {"V": "2*N", "F": None, "chi": None}
+def _doc_cylinder(p):
+    return {"V": "2*N+2"} if p.get("fill_caps") else {"V": "2*N", "F": {3: "2*N"}}
 
 
-def _doc_ring(sw):
-    return {"V": "N*n_cover+2" if sw["open"] else "N*n_cover+1", "F": {3: "N*n_cover"}, "chi": None}
+def _doc_ring(p):
+    return {"V": "N*n_cover+2" if p.get("open") else "N*n_cover+1", "F": {3: "N*n_cover"}}
 
 
-def _doc_flat_ring(sw):
-    return {"V": "N*n_cover+2", "F": {3: "N*n_cover"}, "chi": None}
+def _doc_flat_ring(p):
+    return {"V": "N*n_cover+2", "F": {3: "N*n_cover"}, "E": "1"}
 
 
-COUNT_DOC = {(FLAT, "unit_grid"): _doc_unit_grid, (SHAPES, "torus"): _doc_torus, (SHAPES, "sphere_uv"): _doc_sphere_uv,
-             (SHAPES, "cylinder"): _doc_cylinder, (RINGS, "ring"): _doc_ring, (RINGS, "flat_ring"): _doc_flat_ring}
+def _doc_hexa(p):
+    if p.get("volume"):
+        return {"V": "8", "F": {}}
+    return {"V": "8", "F": {3: "12"} if p.get("triangulate") else {4: "6"}}
 
-# literal tables: closed?
-TABLES = {(SHAPES, "tetrahedron"): True, (SHAPES, "hexahedron"): True, (SHAPES, "icosahedron"): True,
-          (FLAT, "quad"): False, (FLAT, "triangle"): False}
+
+def _pt(n):
+    return X.Lin({n: 1})
+
+
+def specs():
+    hexa_pts = {f"P{i}": _pt(f"P{i}") for i in range(1, 9)}
+    return [
+        GenSpec(FLAT, "unit_grid", {"nu": (2, 5), "nv": (2, 5)}, ["triangulate", "generate_uvs"], topo="disk", counts=_doc_unit_grid,
+                assoc=True, samples=True),
+        GenSpec(FLAT, "unit_triangle", {"nu": (2, 5), "nv": (2, 5)}, ["generate_uvs"], topo="disk", admit=lambda p: p["nu"] >= p["nv"],
+                counts=_doc_unit_triangle, assoc=True),
+        GenSpec(FLAT, "quad", {}, ["triangulate"], fixed={"P0": _pt("P0"), "P1": _pt("P1"), "P2": _pt("P2")}, topo="disk",
+                counts=lambda p: {"V": "4", "F": {3: "2"} if p.get("triangulate") else {4: "1"}}),
+        GenSpec(FLAT, "triangle", {}, [], topo="disk", counts=lambda p: {"V": "3", "F": {3: "1"}}),
+        GenSpec(SHAPES, "tetrahedron", {}, ["volume"], topo="sphere", counts=lambda p: {"V": "4", "F": {3: "4"}}, cells=True),
+        GenSpec(SHAPES, "hexahedron", {}, ["colored", "triangulate", "volume"], fixed=hexa_pts,
+                topo=lambda p: None if p.get("volume") else "sphere", counts=_doc_hexa, cells=True),
+        GenSpec(SHAPES, "axis_aligned_cube", {}, ["colored", "triangulate"], topo="sphere", counts=_doc_hexa),
+        GenSpec(SHAPES, "hexahedron_4pts", {}, ["colored", "volume"], fixed={f"P{i}": _pt(f"P{i}") for i in range(1, 5)},
+                topo=lambda p: None if p.get("volume") else "sphere", counts=_doc_hexa, cells=True),
+        GenSpec(SHAPES, "icosahedron", {}, [], topo="sphere", counts=lambda p: {"V": "12", "F": {3: "20"}}),
+        GenSpec(SHAPES, "cylinder", {"N": (3, 6)}, ["fill_caps"], topo=lambda p: "sphere" if p.get("fill_caps") else "annulus",
+                counts=_doc_cylinder),
+        GenSpec(SHAPES, "torus", {"major_segments": (3, 6), "minor_segments": (3, 6)}, ["triangulate"], topo="torus", counts=_doc_torus),
+        GenSpec(SHAPES, "sphere_uv", {"n_lat": (2, 5), "n_long": (3, 6)}, [], topo="sphere", counts=_doc_sphere_uv),
+        GenSpec(RINGS, "ring", {"N": (3, 6), "n_cover": (1, 3)}, ["open"], topo="disk", counts=_doc_ring),
+        GenSpec(RINGS, "flat_ring", {"N": (1, 4), "n_cover": (1, 3)}, [], topo="disk", counts=_doc_flat_ring),
+        GenSpec(LINES, "vector_field", {"n": (1, 4)}, [], edge_rows=True,
+                fixed={"origins": lambda p: X.rows(p["n"], tag="origins"), "vectors": lambda p: X.rows(p["n"], tag="vectors")},
+                counts=lambda p: {"V": "2*n", "E": "n"}, polyline=lambda p: [(2 * i, 2 * i + 1) for i in range(p["n"])]),
+    ]
+
+
+CONN_RULES = {"range": "C14-N1", "table": "C14-T1", "counts": "C14-C1", "assoc": "C14-S1"}
 
 # R-DIM: geometric parameters (degree, affine weight); centre-like parameters require affine weight 1 of the result
 DIM = {
@@ -117,7 +156,10 @@ DIM = {
     (SHAPES, "sphere_fibonacci"): {"radius": (1, 0)},
     (SHAPES, "torus"): {"major_radius": (1, 0), "minor_radius": (1, 0)},
     (SHAPES, "cylinder"): {"P1": (1, 1), "P2": (1, 1), "radius": (1, 0)},
+    (TRANS, "spherify_vertices"): {"radius": (1, 0), "points": (1, 1)},
+    (TRANS, "cylindrify_edges"): {"radius": (0, 0)},      # a multiple of the mean edge length
 }
+DIM_REQUIRE = {(TRANS, "spherify_vertices"): ["radius", "points"], (TRANS, "cylindrify_edges"): ["radius", "mesh"]}
 
 
 def _res(b, expr, at=None, keep=()):
@@ -125,315 +167,43 @@ def _res(b, expr, at=None, keep=()):
 
 
 def run(ctx):
-    _LOST.clear()
-    grids = {}
-    for key in sorted(set(STRIDE_FUNCS) | set(RANGE_FUNCS) | set(COUNT_DOC) | set(TABLES)):
-        fn = ctx.repo.func(*key)   # AnalysisError if the anchor is gone
-        g = G.GridFn(fn)
-        g.param_min.update({k: max(v, g.param_min.get(k, 1)) for k, v in ADMISSIBLE.get(key, {}).items()})
-        try:
-            grids[key] = (fn, g, g.runs(), None)
-        except G.Unsupported as e:
-            grids[key] = (fn, g, None, str(e))
-    failed_idx = s1_stride(ctx, grids)
-    n1_range(ctx, grids, failed_idx)
-    c1_counts(ctx, grids)
-    t1_tables(ctx, grids)
+    runs = {}
+    for spec in specs():
+        runs[(spec.mod, spec.name)] = (spec, C.check_generator(ctx, spec, CONN_RULES))
+    w1_chain(ctx)
+    q1_corners(ctx, runs)
     p1_forwarding(ctx)
     d1_dimension(ctx)
-    q1_corners(ctx)
     a1_full_turn(ctx)
-    w1_chain(ctx)
     r1_ring_bracket(ctx)
     u1_unit_directions(ctx)
-    ctx.declare_unsupported("unit_triangle: triangular loop nest with `break` and a floor-divided row offset (no index rule applied)")
-    ctx.declare_unsupported("sphere_fibonacci: connectivity comes from scipy ConvexHull (only C14-D1 on the coordinates)")
+    m1_shared_state(ctx)
+    ctx.declare_unsupported("connectivity clauses (C14-N1/T1/C1/S1/W1) are decided for integer parameters in [min, min+3] only (bounded evaluation)")
+    ctx.declare_unsupported("unit_triangle: only resolutions nu >= nv are analysed (for nu < nv the rows cannot hold 1..nv vertices: declared inadmissible)")
+    ctx.declare_unsupported("sphere_fibonacci: connectivity comes from scipy ConvexHull (only C14-D1 / C14-U1 on the coordinates)")
     ctx.declare_unsupported("dual_mesh: faces are vertex_to_faces() rings of the input mesh (data dependent)")
     ctx.declare_unsupported("ring: convergence / accuracy of the apex bisection (numeric loop); only the reachability of the "
                             "bracket is decided (C14-R1)")
-    ctx.declare_unsupported("chain_of_vertices: edges come from utils.iterators (cyclic/consecutive pairs), not index arithmetic")
     # the unsupported generators must still exist (fail closed if they vanish)
-    for key in [(FLAT, "unit_triangle"), (SHAPES, "sphere_fibonacci"), ("procedural.dual", "dual_mesh"), (LINES, "chain_of_vertices")]:
+    for key in [(SHAPES, "sphere_fibonacci"), ("procedural.dual", "dual_mesh"), (SHAPES, "icosphere")]:
         ctx.repo.func(*key)
 
 
-_LOST = set()
-
-
-def _floor(ctx, rule, label, n, at_least):
-    """fail closed on a vacuous pass - unless the rule already reported a lost construct as a finding"""
-    if rule in _LOST or n >= at_least:
-        return
-    # the anchored functions exist (repo.func raised otherwise) but the rule recognises fewer sites than were confirmed by
-    # hand: the protected constructs changed shape - a finding, not an analysis error
-    ctx.fail(rule, ctx.site(SHAPES, "<module>"), f"{label}: the constructs protected by {rule} are no longer found in a recognisable form",
-             f"{n} site(s) recognised, at least {at_least} were confirmed by hand")
-
-
-def _unrecognised(ctx, rule, key, fn, reason):
-    _LOST.add(rule)
-    ctx.fail(rule, ctx.site(key[0], fn), f"index arithmetic of {key[1]} not found in a recognisable form",
-             f"the generator can no longer be walked symbolically ({reason}); the rule cannot establish its clause")
-
-
-# ----------------------------------------------------------------------- C14-S1
-def s1_stride(ctx, grids):
-    """returns the set of (emit stmt id, index position) whose stride is wrong (R-RANGE is then subsumed)."""
-    failed = set()
-    n_sites = 0
-    for key in STRIDE_FUNCS:
-        fn, g, runs, err = grids[key]
-        site = ctx.site(key[0], fn)
-        if runs is None:
-            _unrecognised(ctx, "C14-S1", key, fn, err)
-            continue
-        results = {}
-        try:
-            for run in runs:
-                nest = G.rect_nest(run)
-                if nest is None:
-                    raise G.Unsupported("no rectangular vertex loop nest (one append per innermost iteration)")
-                for em, k, a, role, c, exp, ok in G.stride_obligations(g, run, nest):
-                    kk = (em.key, k, a)
-                    if kk in results and not results[kk][0]:
-                        continue
-                    results[kk] = (ok, em, k, a, role, c, exp, run, nest)
-        except G.Unsupported as e:
-            _unrecognised(ctx, "C14-S1", key, fn, str(e))
-            continue
-        for kk, (ok, em, k, a, role, c, exp, run, nest) in sorted(results.items(), key=lambda kv: (kv[1][1].stmt.lineno, kv[1][2], kv[1][3])):
-            n_sites += 1
-            s = ctx.site(key[0], fn, em.stmt)
-            if ok:
-                ctx.ok("C14-S1", s, f"{key[1]}: {role} atom {a} has coefficient {c} in {em.kind} index {k}")
-                continue
-            failed.add((id(em.stmt), k))
-            w = G.stride_witness(g, run, nest, em, k, c, exp)
-            if w is None:
-                # no concrete witness: do not alarm
-                ctx.declare_unsupported(f"{key[1]}: stride `{c}` differs syntactically from `{exp}` but no concrete witness was found")
-                continue
-            if role == "row":
-                construct = f"row stride of the stored vertex indices is `{c}` but a row of the vertex loop holds `{exp}` vertices"
-            else:
-                construct = f"column step of the stored vertex indices is `{c}` instead of 1"
-            ctx.fail("C14-S1", s, construct,
-                     f"vertex (r, c) of the grid has index base + r*({nest[2].trip}) + c; witness {w}",
-                     index=au.src(g.index_expr(em, k, run)), switches=run.label())
-        # a vertex-attribute key written in the vertex loop is the index of the vertex of that iteration
-        seen = set()
-        for run in runs:
-            nest = G.rect_nest(run)
-            for em in run.emits:
-                if em.kind != "vertices-attr" or nest is None or em.key in seen:
-                    continue
-                try:
-                    P = g.index_polys(em, run)[0]
-                except G.Unsupported:
-                    continue   # reported by C14-N1
-                appl, ok, want, wtxt = G.attr_key_check(g, run, nest, em, P)
-                if not appl or (id(em.stmt), 0) in failed:
-                    continue
-                seen.add(em.key)
-                n_sites += 1
-                ctx.check(ok, "C14-S1", ctx.site(key[0], fn, em.stmt),
-                          f"vertex attribute key `{P}` is not the index `{want}` of the vertex appended in the same iteration",
-                          wtxt, note=f"{key[1]}: attribute key = running vertex index")
-    _floor(ctx, "C14-S1", "C14-S1 stride sites", n_sites, 45)
-    return failed
-
-
-# ----------------------------------------------------------------------- C14-N1
-def n1_range(ctx, grids, failed_idx):
-    n_sites = 0
-    for key in RANGE_FUNCS:
-        fn, g, runs, err = grids[key]
-        if runs is None:
-            _unrecognised(ctx, "C14-N1", key, fn, err)
-            continue
-        results = {}
-        for run in runs:
-            for em in run.emits:
-                if em.kind not in VERTEX_KINDS:
-                    continue
-                try:
-                    polys = g.index_polys(em, run)
-                except G.Unsupported as e:
-                    results[(em.key, 0)] = ("unsupported", em, 0, None, run, str(e))
-                    continue
-                for k, P in enumerate(polys):
-                    kk = (em.key, k)
-                    if kk in results and results[kk][0] != "ok":
-                        continue
-                    if (id(em.stmt), k) in failed_idx:
-                        results[kk] = ("subsumed", em, k, P, run, None)
-                        continue
-                    try:
-                        if g.prove_in_range(P, em, run, run.V):
-                            results[kk] = ("ok", em, k, P, run, None)
-                            continue
-                        w = g.witness_out_of_range(em, k, run)
-                    except G.Unsupported as e:
-                        results[kk] = ("unsupported", em, k, P, run, str(e))
-                        continue
-                    results[kk] = ("witness" if w else "bounded", em, k, P, run, w)
-        for kk, (verdict, em, k, P, run, w) in sorted(results.items(), key=lambda kv: (kv[1][1].stmt.lineno, kv[1][2])):
-            s = ctx.site(key[0], fn, em.stmt)
-            if verdict == "subsumed":
-                continue
-            n_sites += 1
-            if verdict == "ok":
-                ctx.ok("C14-N1", s, f"{key[1]}: {em.kind} index {P} in [0, {run.V}) for all admissible parameters")
-            elif verdict == "witness":
-                ctx.fail("C14-N1", s, f"{em.kind} index `{P}` leaves [0, |V|) with |V| = {run.V}",
-                         f"witness {G.fmt_env(w['params'])}" + (f" ({run.label()})" if run.env else "") +
-                         f": index {w['index']} at iteration ({G.fmt_env(w['iteration'])}) with {w['n_vertices']} vertices",
-                         witness=w)
-            elif verdict == "bounded":
-                ctx.ok("C14-N1", s, f"{key[1]}: {em.kind} index {P}: no violation for parameters <= {G.MAXPARAM} (not proved symbolically)")
-                ctx.declare_unsupported(f"{key[1]}: index `{P}` not proved for all parameters; exhaustive for parameters <= {G.MAXPARAM} only")
-            else:
-                ctx.fail("C14-N1", s, f"{em.kind} index of {key[1]} not found in a recognisable form", str(w))
-    _floor(ctx, "C14-N1", "C14-N1 index sites", n_sites, 180)
-
-
-# ----------------------------------------------------------------------- C14-C1
-def c1_counts(ctx, grids):
-    n = 0
-    for key, doc in COUNT_DOC.items():
-        fn, g, runs, err = grids[key]
-        site = ctx.site(key[0], fn)
-        if runs is None:
-            _unrecognised(ctx, "C14-C1", key, fn, err)
-            continue
-        verdict = {"V": None, "F": None, "chi": None}
-        for run in runs:
-            d = doc(run.env)
-            lab = f" ({run.label()})" if run.env else ""
-            wantV = G.parse_poly(d["V"])
-            if run.V != wantV and verdict["V"] is None:
-                verdict["V"] = (f"|V| = `{run.V}` differs from the documented `{wantV}`" + lab,
-                                _count_witness(g, run.V, wantV, "vertices"))
-            try:
-                F = {}
-                for em in run.emits:
-                    if em.kind == "faces":
-                        F[len(em.idx)] = F.get(len(em.idx), Poly()) + g.count(em, run)
-            except G.Unsupported as e:
-                verdict["F"] = verdict["F"] or (f"face count of {key[1]} not found in a recognisable form", str(e))
-                continue
-            wantF = {k: G.parse_poly(v) for k, v in (d["F"] or {}).items()}
-            for k in sorted(set(F) | set(wantF)) if d["F"] is not None else []:
-                if F.get(k, Poly()) != wantF.get(k, Poly()) and verdict["F"] is None:
-                    verdict["F"] = (f"number of {k}-gons = `{F.get(k, Poly())}` differs from the documented `{wantF.get(k, Poly())}`" + lab,
-                                    _count_witness(g, F.get(k, Poly()), wantF.get(k, Poly()), f"{k}-gons"))
-            if d["chi"] is not None:
-                E2 = Poly()
-                nF = Poly()
-                for k, c in F.items():
-                    E2 = E2 + c.scale(k)
-                    nF = nF + c
-                chi = run.V - E2.scale(Fraction(1, 2)) + nF
-                if chi != Poly.const(d["chi"]) and verdict["chi"] is None:
-                    mins = dict(g.param_min)
-                    penv = {a: mins.get(a, 1) for a in sorted(chi.atoms() | run.V.atoms() | E2.atoms())}
-                    verdict["chi"] = (
-                        f"Euler characteristic V - E + F of the closed shape is `{chi}`, not {d['chi']}" + lab,
-                        f"with E = sum(k*F_k)/2 (every edge of a closed surface is shared by two faces): witness {G.fmt_env(penv)}: "
-                        f"V={run.V.eval(penv)}, E={E2.eval(penv) / 2}, F={nF.eval(penv)}, chi={chi.eval(penv)}; the excess "
-                        f"`{chi - d['chi']}` is the number of allocated vertices that no face can reference on a closed "
-                        f"surface with these faces")
-        for what_, label in (("V", "vertex count"), ("F", "face counts"), ("chi", "Euler identity")):
-            if what_ == "chi" and all(doc(r.env)["chi"] is None for r in runs):
-                continue
-            if what_ == "F" and all(doc(r.env)["F"] is None for r in runs) and verdict["F"] is None:
-                continue
-            n += 1
-            v = verdict[what_]
-            if v is None:
-                ctx.ok("C14-C1", site, f"{key[1]}: {label} agree with the documented polynomials for {len(runs)} switch assignment(s)")
-            else:
-                ctx.fail("C14-C1", site, v[0], v[1])
-    _floor(ctx, "C14-C1", "C14-C1 count obligations", n, 13)
-
-
-def _count_witness(g, got, want, what):
-    ats = sorted(got.atoms() | want.atoms())
-    try:
-        for penv in g.param_envs(ats, dict(g.param_min)):
-            if got.eval(penv) != want.eval(penv):
-                return f"witness {G.fmt_env(penv)}: {got.eval(penv)} {what} generated, {want.eval(penv)} documented"
-    except G.Unsupported:
-        pass
-    return "the polynomials differ"
-
-
-# ----------------------------------------------------------------------- C14-T1
-def t1_tables(ctx, grids):
-    n_tables = 0
-    for key, closed in TABLES.items():
-        fn, g, runs, err = grids[key]
-        site = ctx.site(key[0], fn)
-        if runs is None:
-            _LOST.add("C14-T1")
-            ctx.fail("C14-T1", site, f"literal face table of {key[1]} not found", err)
-            continue
-        seen = {}
-        for run in runs:
-            faces, nodes = [], []
-            for em in run.emits:
-                if em.kind == "faces":
-                    t = G.literal_tuple(em.idx)
-                    if t is None:
-                        faces = None
-                        break
-                    faces.append(t)
-                    nodes.append(em.stmt)
-            if faces is None:
-                ctx.fail("C14-T1", site, f"literal face table of {key[1]} not found", "a face of the table is not a tuple of integer literals")
-                continue
-            if not faces:
-                continue
-            if not run.V.is_const():
-                ctx.fail("C14-T1", site, f"vertex count of {key[1]} is not a constant", str(run.V))
-                continue
-            sig = (tuple(faces), int(run.V.const_value()))
-            if sig in seen:
-                continue
-            seen[sig] = run
-            n_tables += 1
-            arity = "/".join(str(k) for k in sorted({len(f) for f in faces}))
-            label = f"{len(faces)}-face table ({arity}-gons)"
-            probs = G.table_problems(faces, int(run.V.const_value()), closed)
-            s = ctx.site(key[0], fn, nodes[0])
-            if not probs:
-                ctx.ok("C14-T1", s, f"{key[1]} {label}: in range, consistently oriented" + (", closed, chi=2" if closed else ""))
-            for name, detail in probs:
-                ctx.fail("C14-T1", s, f"{label}: {name}", f"{detail}; faces {faces}" + (f" ({run.label()})" if run.env else ""))
-        if not seen:
-            ctx.fail("C14-T1", site, f"literal face table of {key[1]} not found", "no switch assignment emits literal faces")
-        # cells of the volume variants: indices in range (also covered by N1), arity matches the vertex count
-        for run in runs:
-            for em in run.emits:
-                if em.kind == "cells":
-                    t = G.literal_tuple(em.idx)
-                    okc = t is not None and run.V.is_const() and sorted(t) == list(range(int(run.V.const_value())))
-                    ctx.check(okc, "C14-T1", ctx.site(key[0], fn, em.stmt),
-                              f"cell of {key[1]} is not a permutation of all appended vertices",
-                              f"cell {au.src(em.tup)} with {run.V} vertices", note=f"{key[1]} cell uses every vertex once")
-                    break
-    _floor(ctx, "C14-T1", "C14-T1 literal tables", n_tables, 7)
+# ----------------------------------------------------------------------- C14-W1
+def w1_chain(ctx):
+    spec = GenSpec(LINES, "chain_of_vertices", {"n": (3, 6)}, ["loop"], fixed={"vertices": lambda p: X.rows(p["n"])},
+                   counts=lambda p: {"V": "n"},
+                   polyline=lambda p: [(i, i + 1) for i in range(p["n"] - 1)] + ([(p["n"] - 1, 0)] if p.get("loop") else []))
+    C.check_generator(ctx, spec, {"range": "C14-W1", "table": "C14-W1", "counts": "C14-W1"})
 
 
 # ----------------------------------------------------------------------- C14-P1
 def p1_forwarding(ctx):
-    n = 0
     for modname in PROC_MODULES:
         mod = ctx.repo.module(modname)
         for fn, call, callee, i, var, recv in G.forwarding_sites(ctx.repo, mod):
             if recv not in G.defaulted_params(callee):
                 continue
-            n += 1
             callee_params = set(au.params(callee))
             bad = var != recv and var in callee_params
             s = ctx.site(modname, fn, call)
@@ -443,22 +213,19 @@ def p1_forwarding(ctx):
             ctx.fail("C14-P1", s, f"`{var}` is passed positionally into the defaulted parameter `{recv}` of {callee.name}",
                      f"{callee.name} has its own parameter `{var}`, which keeps its default: the value given to {fn.name} for "
                      f"`{var}` drives `{recv}` of {callee.name} instead (e.g. {var}=True turns `{recv}` on)")
-    _floor(ctx, "C14-P1", "C14-P1 forwarded switches", n, 4)
 
 
 # ----------------------------------------------------------------------- C14-D1
 def d1_dimension(ctx):
-    n = 0
     for key, geo in DIM.items():
         fn = ctx.repo.func(*key)
-        site = ctx.site(key[0], fn)
         it = D.Interp(fn, D.Config(geo, ctx.repo, key[0])).run()
-        n += dim_obligations(ctx, "C14-D1", key, fn, it, geo)
-    _floor(ctx, "C14-D1", "C14-D1 obligations", n, 20)
+        dim_obligations(ctx, "C14-D1", key, fn, it, geo, require=DIM_REQUIRE.get(key))
 
 
 def dim_obligations(ctx, rule, key, fn, it, geo, require=None):
-    """Shared with C19: homogeneity events, degree / affine weight of the produced coordinates, dependence."""
+    """Shared with C19: homogeneity events, degree / affine weight of the produced coordinates, dependence.
+    A degree / dependence the lattice cannot derive is *undecided*; only a derived contradiction is a violation."""
     n = 0
     site = ctx.site(key[0], fn)
     need_aff = any(Fraction(a) == 1 for d, a in geo.values())
@@ -471,19 +238,23 @@ def dim_obligations(ctx, rule, key, fn, it, geo, require=None):
         else:
             ctx.fail(rule, ctx.site(key[0], fn, node), f"coordinates of different length-degree are mixed {tuple(D.fmt_deg(x) for x in detail)}",
                      f"`{au.src(node)[:120]}`")
+    def empty(v_):
+        return v_.empty
     sinks = []
     for node, v in it.vertex_stores:
         sinks.append((node, v, "vertex coordinates stored"))
     for node, v in it.returns:
         for pos, x in enumerate(v.items if v.items else [v]):
             tgt = x.verts if x.verts is not None else x
+            if empty(tgt):
+                continue        # an empty result (special case answered up front) carries no coordinates
             if x.verts is not None and any(tgt is a for n_, a in it.vertex_stores):
                 continue
-            # the first returned value is the coordinates; further values (normals ...) only when their degree is known
-            if pos == 0 or tgt.deg is not None:
+            # the first returned value is the coordinates; further values (normals, indices ...) are not lengths
+            if pos == 0:
                 sinks.append((node, tgt, "returned coordinates"))
     if not sinks:
-        ctx.fail(rule, site, f"no coordinates produced by {key[1]} were found", "neither a vertex store nor a returned array")
+        ctx.undecided(rule, site, f"no coordinates produced by {key[1]} were found", "neither a vertex store nor a returned array")
         return n + 1
     had_event = bool(it.events)
     for node, v, what_ in sinks:
@@ -492,8 +263,8 @@ def dim_obligations(ctx, rule, key, fn, it, geo, require=None):
         if v.deg is None:
             if had_event:
                 continue   # already reported at the offending sum
-            ctx.fail(rule, s, f"length-degree of the {what_} by {key[1]} is not derivable",
-                     f"`{au.src(node)[:120]}` goes through an expression the degree lattice does not know")
+            ctx.undecided(rule, s, f"length-degree of the {what_} by {key[1]} is not derivable",
+                          f"`{au.src(node)[:120]}` goes through an expression the degree lattice does not know")
             continue
         if v.deg != D.ANY and v.deg != 1:
             ctx.fail(rule, s, f"{what_} have length-degree {D.fmt_deg(v.deg)} instead of 1",
@@ -507,36 +278,47 @@ def dim_obligations(ctx, rule, key, fn, it, geo, require=None):
     # dependence: every geometric parameter reaches the result on every path
     finals = []
     for node, v in it.returns:
-        for x in (v.items if v.items else [v]):
-            finals.append((node, x.verts if x.verts is not None else x))
+        for x in (v.items[:1] if v.items else [v]):
+            tgt = x.verts if x.verts is not None else x
+            if not empty(tgt):
+                finals.append((node, tgt))
     for p in sorted(require if require is not None else geo):
         n += 1
         alts = p if isinstance(p, tuple) else (p,)
-        bad = None
+        pname = " / ".join(alts)
+        bad = unknown = None
         for node, v in finals:
-            if v.deps is None or not any(a in v.deps for a in alts):
-                bad = (node, v)
-                break
+            if v.deps is not None and any(D.has_dep(v.deps, a) for a in alts):
+                continue        # a definite dependence, whatever else the value may depend on
+            if v.deps is None or v.opaque or v.deg is None:
+                # a value whose construction the lattice could not follow (unknown degree) may depend on the parameter through
+                # a path the analysis did not see (stores into a copied mesh ...): not a refutation
+                unknown = unknown or (node, v)
+            else:
+                bad = bad or (node, v)
         if not finals:
-            ctx.fail(rule, site, f"{key[1]} returns nothing the dependence on `{p}` can be read from", "")
+            ctx.undecided(rule, site, f"{key[1]} returns nothing the dependence on `{pname}` can be read from", "")
         elif bad:
             where = next((bad[1].missing[a] for a in alts if a in bad[1].missing), None)
-            pname = " / ".join(alts)
             ctx.fail(rule, ctx.site(key[0], fn, bad[0]), f"the result of {key[1]} does not depend on `{pname}`" + (" on every path" if where else ""),
                      (f"on {where} " if where else "") + f"the returned coordinates are computed without `{pname}`: "
                      f"changing it does not move the points")
+        elif unknown:
+            ctx.undecided(rule, ctx.site(key[0], fn, unknown[0]), f"dependence of the result of {key[1]} on `{pname}` is not derivable",
+                          f"`{au.src(unknown[0])[:100]}` returns a value whose provenance the analysis cannot follow")
         else:
-            ctx.ok(rule, site, f"{key[1]}: `{' / '.join(alts)}` reaches the returned coordinates on every path")
+            ctx.ok(rule, site, f"{key[1]}: `{pname}` reaches the returned coordinates on every path")
     return n
 
 
 # ----------------------------------------------------------------------- C14-Q1
-def _affine(expr, points):
-    """polynomial of expr over the point atoms, or None"""
-    try:
-        return sym.to_poly(expr, opaque=False)
-    except sym.NotPoly:
-        return None
+def _lin_poly(v):
+    """generated vertex -> Poly over the point atoms (Lin) or over the axes ex, ey, ez (literal Vec); None otherwise"""
+    if isinstance(v, X.Lin):
+        return Poly({(k,): c for k, c in v.t.items()})
+    if isinstance(v, X.VecV) and v.numeric() and len(v.comps) == 3:
+        return Poly({("ex",): Fraction(v.comps[0]), ("ey",): Fraction(v.comps[1]), ("ez",): Fraction(v.comps[2])})
+    return None
 
 
 def _weights_sum(P, points):
@@ -548,105 +330,75 @@ def _weights_sum(P, points):
     return tot
 
 
-def q1_corners(ctx):
-    n = 0
+def _corner_polys(ctx, runs, key, nverts):
+    """the vertices generated by the first evaluated run of `key` as linear forms, or (None, reason)"""
+    spec, rs = runs[key]
+    ok = [r for r in rs if r.status == "ok"]
+    if not ok:
+        return None, "the generator could not be evaluated (see C14-N1)"
+    vs = ok[0].mesh.c["vertices"].data
+    if len(vs) != nverts:
+        return None, f"{len(vs)} vertices generated"
+    polys = [_lin_poly(v) for v in vs]
+    if any(p is None for p in polys):
+        return None, "a corner is not a linear form of the given points: " + ", ".join(repr(v) for v in vs)[:200]
+    return polys, ""
+
+
+def q1_corners(ctx, runs):
     # ---- quad
     fn = ctx.repo.func(FLAT, "quad")
     site = ctx.site(FLAT, fn)
-    b = sym.Bindings(fn)
     ps = au.params(fn)[:3]
-    verts = None
-    for st in au.stmts(fn.body):
-        if isinstance(st, ast.AugAssign) and isinstance(st.target, ast.Attribute) and st.target.attr == "vertices" \
-                and isinstance(st.value, (ast.List, ast.Tuple)) and len(st.value.elts) == 4:
-            verts = (st, [_res(b, e, at=st, keep=tuple(ps)) for e in st.value.elts])
-    if verts is None:
-        ctx.fail("C14-Q1", site, "quad: the four corner vertices are not appended as one literal list", "")
+    polys, why = _corner_polys(ctx, runs, (FLAT, "quad"), 4)
+    if polys is None:
+        ctx.undecided("C14-Q1", site, "quad: the four corners are not found as affine forms of the given points", why)
     else:
-        st, es = verts
-        polys = [_affine(_strip_vec(e), ps) for e in es]
-        n += 3
-        if any(p is None for p in polys):
-            ctx.fail("C14-Q1", ctx.site(FLAT, fn, st), "quad: corner expressions are not affine combinations of P0, P1, P2",
-                     "; ".join(au.src(e) for e in es))
+        sums = [_weights_sum(p, ps) for p in polys]
+        if any(x is None for x in sums):
+            ctx.undecided("C14-Q1", site, "quad: the four corners are not found as affine forms of the given points",
+                          f"corners {[str(p) for p in polys]}")
         else:
-            sums = [_weights_sum(p, ps) for p in polys]
-            ctx.check(all(x == 1 for x in sums), "C14-Q1", ctx.site(FLAT, fn, st),
+            ctx.check(all(x == 1 for x in sums), "C14-Q1", site,
                       "quad: a corner is not an affine combination of the given points (weights do not sum to 1)",
                       f"corners {[str(p) for p in polys]}: the quad does not move with its three points", note="quad corners are affine")
             alt = polys[0] - polys[1] + polys[2] - polys[3]
-            ctx.check(alt.is_zero(), "C14-Q1", ctx.site(FLAT, fn, st),
+            ctx.check(alt.is_zero(), "C14-Q1", site,
                       "quad: the corners taken in face order (0,1,2,3) do not form a parallelogram",
                       f"v0 - v1 + v2 - v3 = {alt} for corners {[str(p) for p in polys]}: the face is self-intersecting (bow-tie) or skewed",
                       note="quad corners in face order form a parallelogram")
             given = {str(Poly.atom(p)) for p in ps}
-            ctx.check(given <= {str(p) for p in polys}, "C14-Q1", ctx.site(FLAT, fn, st),
+            ctx.check(given <= {str(p) for p in polys}, "C14-Q1", site,
                       "quad: one of the requested corners P0, P1, P2 is not a vertex of the quad",
                       f"corners {[str(p) for p in polys]}", note="quad contains P0, P1, P2")
     # ---- hexahedron_4pts
     fn = ctx.repo.func(SHAPES, "hexahedron_4pts")
     site = ctx.site(SHAPES, fn)
-    b = sym.Bindings(fn)
     ps = au.params(fn)[:4]
-    calls = [c for c in au.calls(fn) if au.call_tail(c) == "hexahedron" and len(c.args) >= 8]
-    if len(calls) != 1:
-        ctx.fail("C14-Q1", site, "hexahedron_4pts: call of hexahedron with eight corners not found", "")
+    polys, why = _corner_polys(ctx, runs, (SHAPES, "hexahedron_4pts"), 8)
+    if polys is None:
+        ctx.undecided("C14-Q1", site, "hexahedron_4pts: the eight corners are not found as affine forms of the given points", why)
     else:
-        c = calls[0]
-        polys = [_affine(_strip_vec(_res(b, e, at=c, keep=tuple(ps))), ps) for e in c.args[:8]]
-        n += _box_checks(ctx, SHAPES, fn, c, polys, "hexahedron_4pts",
-                         lambda P: _weights_sum(P, ps) == 1 if P is not None else False,
-                         required={0: Poly.atom(ps[0]), 1: Poly.atom(ps[1]), 3: Poly.atom(ps[2]), 4: Poly.atom(ps[3])})
+        _box_checks(ctx, SHAPES, fn, fn, polys, "hexahedron_4pts",
+                    lambda P: _weights_sum(P, ps) == 1 if P is not None else False,
+                    required={0: Poly.atom(ps[0]), 1: Poly.atom(ps[1]), 3: Poly.atom(ps[2]), 4: Poly.atom(ps[3])})
     # ---- axis_aligned_cube: literal corners
     fn = ctx.repo.func(SHAPES, "axis_aligned_cube")
     site = ctx.site(SHAPES, fn)
-    b = sym.Bindings(fn)
-    calls = [c for c in au.calls(fn) if au.call_tail(c) == "hexahedron" and len(c.args) >= 8]
-    if len(calls) != 1:
-        ctx.fail("C14-Q1", site, "axis_aligned_cube: call of hexahedron with eight corners not found", "")
+    polys, why = _corner_polys(ctx, runs, (SHAPES, "axis_aligned_cube"), 8)
+    if polys is None or any(not p.atoms() <= {"ex", "ey", "ez"} for p in polys):
+        ctx.undecided("C14-Q1", site, "axis_aligned_cube: the eight corners are not found as literal points", why)
     else:
-        c = calls[0]
-        vecs = []
-        for e in c.args[:8]:
-            r = _res(b, e, at=c)
-            v = None
-            if isinstance(r, ast.Call) and au.call_tail(r) == "Vec" and len(r.args) == 3:
-                v = [au.const(x) for x in r.args]
-                if not all(isinstance(x, (int, float)) and not isinstance(x, bool) for x in v):
-                    v = None
-            vecs.append(v)
-        if any(v is None for v in vecs):
-            ctx.fail("C14-Q1", ctx.site(SHAPES, fn, c), "axis_aligned_cube: corners are not literal Vec(x, y, z)", "")
-            n += 1
-        else:
-            polys = [Poly({("x",): Fraction(v[0]).limit_denominator(10**6), ("y",): Fraction(v[1]).limit_denominator(10**6),
-                           ("z",): Fraction(v[2]).limit_denominator(10**6)}) for v in vecs]
-            n += _box_checks(ctx, SHAPES, fn, c, polys, "axis_aligned_cube", lambda P: True, required={})
-            n += 1
-            # unit cube centred at the origin: all corners (+-1/2, +-1/2, +-1/2), all distinct
-            ok = all(all(abs(x) == 0.5 for x in v) for v in vecs) and len({tuple(v) for v in vecs}) == 8
-            ctx.check(ok, "C14-Q1", ctx.site(SHAPES, fn, c), "axis_aligned_cube: corners are not the eight points (+-0.5, +-0.5, +-0.5)",
-                      f"{vecs}", note="unit cube corners")
-    _floor(ctx, "C14-Q1", "C14-Q1 obligations", n, 9)
-
-
-def _strip_vec(e):
-    """Vec(x) -> x (a conversion, not a combination)"""
-    class T(ast.NodeTransformer):
-        def visit_Call(self, node):
-            self.generic_visit(node)
-            if au.call_tail(node) == "Vec" and len(node.args) == 1 and not node.keywords:
-                return node.args[0]
-            return node
-    import copy
-    return T().visit(copy.deepcopy(e))
+        _box_checks(ctx, SHAPES, fn, fn, polys, "axis_aligned_cube", lambda P: True, required={})
+        vecs = [tuple(p.coeff(a).const_value() for a in ("ex", "ey", "ez")) for p in polys]
+        # unit cube centred at the origin: all corners (+-1/2, +-1/2, +-1/2), all distinct
+        ok = all(all(abs(x) == Fraction(1, 2) for x in v) for v in vecs) and len(set(vecs)) == 8
+        ctx.check(ok, "C14-Q1", site, "axis_aligned_cube: corners are not the eight points (+-0.5, +-0.5, +-0.5)",
+                  f"{[tuple(float(x) for x in v) for v in vecs]}", note="unit cube corners")
 
 
 def _box_checks(ctx, modname, fn, node, polys, label, affine_ok, required):
     s = ctx.site(modname, fn, node)
-    if any(p is None for p in polys):
-        ctx.fail("C14-Q1", s, f"{label}: corner expressions are not affine combinations of the given points", "")
-        return 1
     ctx.check(all(affine_ok(p) for p in polys), "C14-Q1", s,
               f"{label}: a corner is not an affine combination of the given points (weights do not sum to 1)",
               f"corners {[str(p) for p in polys]}", note=f"{label}: corners are affine")
@@ -658,12 +410,36 @@ def _box_checks(ctx, modname, fn, node, polys, label, affine_ok, required):
               f"{label}: top corners 4..7 are not the bottom corners 0..3 translated by one vector",
               f"v4-v0, v5-v1, v6-v2, v7-v3 = {[str(l) for l in lifts]}: the side faces of the documented numbering are twisted",
               note=f"{label}: top = bottom + {lifts[0]}")
-    k = 3
     for i, want in sorted(required.items()):
-        k += 1
         ctx.check(polys[i] == want, "C14-Q1", s, f"{label}: corner {i} is `{polys[i]}` instead of the requested point `{want}`",
                   "the box is not built on the requested corners", note=f"{label}: corner {i} = {want}")
-    return k
+
+
+# ----------------------------------------------------------------------- helpers shared by A1 / R1: functions reachable from a generator
+def reachable(ctx, modname, fn, depth=2):
+    """[(module name, FunctionDef)]: fn, its nested functions and the package functions of the procedural modules it calls by name"""
+    out, seen = [], set()
+
+    def add(mn, f, d):
+        if id(f) in seen:
+            return
+        seen.add(id(f))
+        out.append((mn, f))
+        for n in ast.walk(f):
+            if n is not f and isinstance(n, (ast.FunctionDef, ast.AsyncFunctionDef)):
+                if id(n) not in seen:
+                    seen.add(id(n))
+                    out.append((mn, n))
+        if d <= 0:
+            return
+        for c in ast.walk(f):
+            if isinstance(c, ast.Call) and isinstance(c.func, ast.Name):
+                r = ctx.repo.resolve_func(mn, c.func.id)
+                if r and r[1] is not None and r[0].name.startswith("mouette.procedural"):
+                    add(r[0].name, r[1], d - 1)
+    mn = modname if modname.startswith("mouette") else "mouette." + modname
+    add(mn, fn, depth)
+    return out
 
 
 # ----------------------------------------------------------------------- C14-A1
@@ -674,6 +450,8 @@ def _flatten_product(e, num, den, inv=False):
     elif isinstance(e, ast.BinOp) and isinstance(e.op, ast.Div):
         _flatten_product(e.left, num, den, inv)
         _flatten_product(e.right, num, den, not inv)
+    elif isinstance(e, ast.UnaryOp) and isinstance(e.op, ast.UAdd):
+        _flatten_product(e.operand, num, den, inv)
     else:
         (den if inv else num).append(e)
 
@@ -683,209 +461,319 @@ def _is_pi(e):
     return bool(c) and c[-1] == "pi"
 
 
+def _range_trip(it):
+    """trip-count expression of `range(T)` / `range(0, T)` / `np.arange(T)`, else None"""
+    if isinstance(it, ast.Call) and au.call_tail(it) in ("range", "arange") and not it.keywords:
+        if len(it.args) == 1:
+            return it.args[0]
+        if len(it.args) == 2 and au.const(it.args[0]) == 0:
+            return it.args[1]
+    return None
+
+
+def _index_bindings(node):
+    """names bound around `node` to 0..T-1: range loops and comprehension generators -> {name: (trip expression, binder node)}"""
+    out = {}
+    child = node
+    for a in au.ancestors(node):
+        if isinstance(a, (ast.For, ast.AsyncFor)) and isinstance(a.target, ast.Name) and any(child is s for s in a.body):
+            t = _range_trip(a.iter)
+            if t is not None:
+                out.setdefault(a.target.id, (t, a))
+        elif isinstance(a, (ast.ListComp, ast.GeneratorExp, ast.SetComp, ast.DictComp)):
+            for g in a.generators:
+                if isinstance(g.target, ast.Name) and child is not g and not (child is g.iter):
+                    t = _range_trip(g.iter)
+                    if t is not None:
+                        out.setdefault(g.target.id, (t, a))
+        if isinstance(a, (ast.FunctionDef, ast.AsyncFunctionDef, ast.Lambda)):
+            break
+        child = a
+    return out
+
+
 def a1_full_turn(ctx):
-    n = 0
-    for key, expected in [((SHAPES, "torus"), 2), ((SHAPES, "sphere_uv"), 1), ((SHAPES, "cylinder"), 1)]:
+    for key in [(SHAPES, "torus"), (SHAPES, "sphere_uv"), (SHAPES, "cylinder")]:
         fn = ctx.repo.func(*key)
-        b = sym.Bindings(fn)
-        n_before = n
-        for node in list(au.walk(fn)) + [None]:
-            if node is None:
-                if n - n_before < expected:
-                    _LOST.add("C14-A1")
-                    ctx.fail("C14-A1", ctx.site(key[0], fn), f"{key[1]}: periodic parameter `2*pi*x/T` of a range(T) loop not found",
-                             f"{n - n_before} full-turn expression(s) recognised, {expected} confirmed by hand")
-                break
-            if not (isinstance(node, ast.BinOp) and isinstance(node.op, (ast.Mult, ast.Div))):
-                continue
-            par = au.parent(node)
-            if isinstance(par, ast.BinOp) and isinstance(par.op, (ast.Mult, ast.Div)):
-                continue   # not maximal
-            num, den = [], []
-            _flatten_product(node, num, den)
-            if not any(_is_pi(x) for x in num):
-                continue
-            consts = [au.const(x) for x in num + den if isinstance(au.const(x), (int, float))]
-            c = Fraction(1)
-            for x in num:
-                if isinstance(au.const(x), (int, float)):
-                    c *= Fraction(au.const(x)).limit_denominator(1000)
-            for x in den:
-                if isinstance(au.const(x), (int, float)) and au.const(x) != 0:
-                    c /= Fraction(au.const(x)).limit_denominator(1000)
-            if c != 2:
-                continue   # not a full turn (half turns of the latitude are not periodic)
-            # loop variable factors
-            loops = {a.target.id: a for a in au.ancestors(node) if isinstance(a, ast.For) and isinstance(a.target, ast.Name)
-                     and isinstance(a.iter, ast.Call) and au.call_tail(a.iter) == "range" and len(a.iter.args) == 1}
-            lv = [x for x in num if isinstance(x, ast.Name) and x.id in loops]
-            if len(lv) != 1:
-                continue
-            x = lv[0].id
-            trip = sym.to_poly(_res(b, loops[x].iter.args[0], at=loops[x]))
-            others = [d for d in den if not isinstance(au.const(d), (int, float))]
-            extra = [q for q in num if not _is_pi(q) and not isinstance(au.const(q), (int, float)) and q is not lv[0]]
-            n += 1
-            dpoly = Poly.const(1)
-            for d in others:
-                dpoly = dpoly * sym.to_poly(_res(b, d, at=node))
-            s = ctx.site(key[0], fn, node)
-            ok = not extra and dpoly == trip
-            wit = ""
-            if not ok and not extra:
-                g = G.GridFn(fn)
-                mins = dict(ADMISSIBLE.get(key, {}))
-                try:
-                    for penv in g.param_envs(sorted(dpoly.atoms() | trip.atoms()), mins):
-                        if dpoly.eval(penv) != trip.eval(penv):
-                            wit = (f"; witness {G.fmt_env(penv)}: the last step reaches {trip.eval(penv) - 1}/{dpoly.eval(penv)} of a turn, "
-                                   f"the seam closes only at {trip.eval(penv) - 1}/{trip.eval(penv)}")
-                            break
-                except G.Unsupported:
-                    pass
-            ctx.check(ok, "C14-A1", s,
-                      f"the full turn of `{x}` is divided by `{dpoly}` while `{x}` runs over `{trip}` steps",
-                      f"`{au.src(node)}`: the periodic direction must be sampled at x/T of a turn for x in range(T)" + wit,
-                      note=f"{key[1]}: 2*pi*{x}/{trip}")
-    _floor(ctx, "C14-A1", "C14-A1 full-turn parameters", n, 4)
-
-
-# ----------------------------------------------------------------------- C14-W1
-def w1_chain(ctx):
-    fn = ctx.repo.func(LINES, "chain_of_vertices")
-    site = ctx.site(LINES, fn)
-    ps = au.params(fn)
-    found = False
-    for st in fn.body:
-        if not (isinstance(st, ast.If) and st.orelse):
-            continue
-        pol = G.sw_eval(st.test, {ps[1]: True}) if len(ps) > 1 else None
-        if pol is None:
-            continue
-        found = True
-        on, off = (st.body, st.orelse) if pol else (st.orelse, st.body)
-
-        def tails(body):
-            return sorted({au.call_tail(c) for s_ in body for c in au.calls(s_) if au.call_tail(c) in ("cyclic_pairs", "consecutive_pairs")})
-        ctx.check(tails(on) == ["cyclic_pairs"] and tails(off) == ["consecutive_pairs"], "C14-W1", ctx.site(LINES, fn, st),
-                  f"chain_of_vertices: loop=True uses {tails(on)} and loop=False uses {tails(off)}",
-                  "a closed loop needs the wrapping pair (n-1, 0); an open chain must not have it", note="loop switch wired as named")
-        # both over all vertices
-        b = sym.Bindings(fn)
-        rargs = [_res(b, c.args[0], at=c) for s_ in st.body + st.orelse for c in au.calls(s_)
-                 if au.call_tail(c) in ("cyclic_pairs", "consecutive_pairs") and c.args]
-        args = [au.src(a) for a in rargs]
-
-        def all_vertices(a):
-            return isinstance(a, ast.Call) and au.call_tail(a) == "range" and len(a.args) == 1 and isinstance(a.args[0], ast.Call) \
-                and au.call_tail(a.args[0]) == "len" and len(a.args[0].args) == 1 and isinstance(a.args[0].args[0], ast.Attribute) \
-                and a.args[0].args[0].attr == "vertices"
-        ctx.check(len(rargs) == 2 and all(all_vertices(a) for a in rargs), "C14-W1",
-                  ctx.site(LINES, fn, st), f"chain_of_vertices: pairs are taken over {args} instead of all vertex indices",
-                  "every vertex must be linked", note="pairs over range(len(vertices))")
-    if not found:
-        ctx.fail("C14-W1", site, "chain_of_vertices: branch on the `loop` switch not found", "")
+        found = 0
+        for mn, f in reachable(ctx, key[0], fn):
+            b = sym.Bindings(f)
+            params = tuple(au.params(f))
+            for node in au.walk(f):
+                if isinstance(node, ast.Call) and au.call_tail(node) == "linspace" and len(node.args) >= 3:
+                    # np.linspace(0, 2*pi, T, endpoint=False): T samples of a full turn
+                    ep = next((k.value for k in node.keywords if k.arg == "endpoint"), None)
+                    hi = order.fold_const(_res(b, node.args[1], at=node))
+                    if au.const(node.args[0]) == 0 and hi is not None and abs(hi - 2 * math.pi) < 1e-9 and ep is not None and au.const(ep) is False:
+                        found += 1
+                        ctx.ok("C14-A1", ctx.site(mn, f, node), f"{key[1]}: linspace over a full turn without its end point")
+                    continue
+                if not (isinstance(node, ast.BinOp) and isinstance(node.op, (ast.Mult, ast.Div))):
+                    continue
+                par = au.parent(node)
+                if isinstance(par, ast.BinOp) and isinstance(par.op, (ast.Mult, ast.Div)):
+                    continue   # not maximal
+                idx = _index_bindings(node)
+                full = _res(b, node, at=node, keep=tuple(idx) + params)
+                num, den = [], []
+                _flatten_product(full, num, den)
+                if not any(_is_pi(x) for x in num):
+                    continue
+                c = Fraction(1)
+                for x in num:
+                    if isinstance(au.const(x), (int, float)) and not isinstance(au.const(x), bool):
+                        c *= Fraction(au.const(x)).limit_denominator(1000)
+                for x in den:
+                    if isinstance(au.const(x), (int, float)) and not isinstance(au.const(x), bool) and au.const(x) != 0:
+                        c /= Fraction(au.const(x)).limit_denominator(1000)
+                if c != 2:
+                    continue   # not a full turn (half turns of the latitude are not periodic)
+                lv = [x for x in num if isinstance(x, ast.Name) and x.id in idx]
+                arange = [x for x in num if _range_trip(x) is not None and au.call_tail(x) == "arange"]
+                if len(lv) + len(arange) != 1:
+                    continue
+                if lv:
+                    xname = lv[0].id
+                    trip_e, binder = idx[xname]
+                    trip = sym.to_poly(_res(b, trip_e, at=binder if isinstance(binder, ast.stmt) else node, keep=params))
+                    factor = lv[0]
+                else:
+                    xname = au.src(arange[0])
+                    trip = sym.to_poly(_res(b, _range_trip(arange[0]), at=node, keep=params))
+                    factor = arange[0]
+                others = [d for d in den if not isinstance(au.const(d), (int, float))]
+                extra = [q for q in num if not _is_pi(q) and not isinstance(au.const(q), (int, float)) and q is not factor]
+                if extra:
+                    continue   # scaled by something else: not the plain periodic parameter
+                found += 1
+                dpoly = Poly.const(1)
+                for d in others:
+                    dpoly = dpoly * sym.to_poly(d)
+                s = ctx.site(mn, f, node)
+                if dpoly == trip:
+                    ctx.ok("C14-A1", s, f"{key[1]}: 2*pi*{xname}/{trip}")
+                    continue
+                wit = None
+                if all(not a.startswith("⟨") for a in dpoly.atoms() | trip.atoms()):
+                    g = G.GridFn(f)
+                    mins = {"major_segments": 3, "minor_segments": 3, "n_lat": 2, "n_long": 3, "N": 3}
+                    try:
+                        for penv in g.param_envs(sorted(dpoly.atoms() | trip.atoms()), mins):
+                            if dpoly.eval(penv) != trip.eval(penv):
+                                wit = (f"; witness {G.fmt_env(penv)}: the last step reaches {trip.eval(penv) - 1}/{dpoly.eval(penv)} of a turn, "
+                                       f"the seam closes only at {trip.eval(penv) - 1}/{trip.eval(penv)}")
+                                break
+                    except G.Unsupported:
+                        pass
+                if wit is None:
+                    ctx.declare_unsupported(f"{key[1]}: divisor `{dpoly}` of a full turn is not comparable with the trip count `{trip}` of its index")
+                    continue
+                ctx.fail("C14-A1", s, f"the full turn of `{xname}` is divided by `{dpoly}` while `{xname}` runs over `{trip}` steps",
+                         f"`{au.src(node)}`: the periodic direction must be sampled at x/T of a turn for x in range(T)" + wit)
+        if not found:
+            # the clause sharpens the geometric reading of "closed" (evenly sampled seam); the combinatorial closure is decided by
+            # C14-T1 / C14-C1 on the generated tables, so an unrecognised spelling is declared, not left undecided
+            ctx.declare_unsupported(f"{key[1]}: no full-turn expression `2*pi*x/T` over a range index recognised (C14-A1 not applied)")
 
 
 # ----------------------------------------------------------------------- C14-R1
+LOOPS = (ast.For, ast.AsyncFor, ast.While)
+
+
+def _height(v):
+    """literal height of a bracket end: a number, or Vec(0, 0, h)"""
+    h = order.fold_const(v)
+    if h is not None:
+        return h
+    if isinstance(v, ast.Call) and au.call_tail(v) == "Vec" and len(v.args) == 3:
+        h = order.fold_const(v.args[2])
+        if h is not None and order.fold_const(v.args[0]) == 0 and order.fold_const(v.args[1]) == 0:
+            return h
+    return None
+
+
+def _end_updates(body, ends):
+    """[(stmt, end name, value expression, co-assigned names)] for the (re)bindings of the bracket ends in `body`"""
+    out = []
+    for st in au.stmts(body):
+        pairs = list(sym.split_assign(st))
+        for name, v in pairs:
+            if name in ends:
+                out.append((st, name, v, [n for n, _ in pairs if n != name]))
+        if isinstance(st, ast.AugAssign) and isinstance(st.target, ast.Name) and st.target.id in ends:
+            out.append((st, st.target.id, ast.BinOp(ast.Name(st.target.id, ast.Load()), st.op, st.value), []))
+    return out
+
+
+def _assoc(f, b, expr, at, ends, upper):
+    """which bracket end the value `expr` (a defect evaluated at an end) belongs to: 'upper' / 'lower' / None (unknown)"""
+    lower = [e for e in ends if e != upper][0]
+    r = G.fast_resolve(b, expr, at, keep=tuple(ends))
+    m = au.names(r) & set(ends)
+    if m == {upper}:
+        return "upper"
+    if m == {lower}:
+        return "lower"
+    if m:
+        return None
+    if not isinstance(expr, ast.Name):
+        return None
+    # a value carried from one iteration to the next: every definition is either computed from one end or assigned together with it
+    votes = set()
+    for st in au.stmts(f.body):
+        pairs = list(sym.split_assign(st))
+        for k, (name, v) in enumerate(pairs):
+            if name != expr.id:
+                continue
+            mm = au.names(v) & set(ends)
+            co = [n for n, _ in pairs if n in ends]
+            if len(mm) == 1:
+                votes.add(next(iter(mm)))
+            elif not mm and len(co) == 1:
+                votes.add(co[0])
+            elif not mm and not co:
+                # the end rebound by the neighbouring statement of the same block
+                blk, _ = au.enclosing_block(st)
+                near = set()
+                if blk:
+                    i = [id(x) for x in blk].index(id(st))
+                    for s2 in blk[max(0, i - 1):i + 2]:
+                        near |= {n for n, _ in sym.split_assign(s2) if n in ends}
+                if len(near) == 1:
+                    votes.add(next(iter(near)))
+                else:
+                    votes.add("?")
+            else:
+                votes.add("?")
+    if votes == {upper}:
+        return "upper"
+    if votes == {lower}:
+        return "lower"
+    return None
+
+
 def r1_ring_bracket(ctx):
-    import math
-    from .. import order
     fn = ctx.repo.func(RINGS, "ring")
     site = ctx.site(RINGS, fn)
-    b = sym.Bindings(fn)
-    loops = [st for st in fn.body if isinstance(st, ast.While)]
-    # the apex store: M.vertices[0] = combination of the two bracket ends
-    ends = None
-    for st in fn.body:
-        if isinstance(st, ast.Assign) and isinstance(st.targets[0], ast.Subscript) and isinstance(st.targets[0].value, ast.Attribute) \
-                and st.targets[0].value.attr == "vertices" and loops and st.lineno > loops[-1].lineno:
+    found = None
+    for mn, f in reachable(ctx, RINGS, fn):
+        loops = [st for st in au.stmts(f.body) if isinstance(st, LOOPS)]
+        if not loops:
+            continue
+        # bracket ends: two names averaged somewhere in f, both rebound inside a loop
+        rebound = set()
+        for lp in loops:
+            for st in au.stmts(lp.body):
+                rebound |= {n for n, _ in sym.split_assign(st)}
+                if isinstance(st, ast.AugAssign) and isinstance(st.target, ast.Name):
+                    rebound.add(st.target.id)
+        pairs = []
+        for node in au.walk(f):
+            if not isinstance(node, ast.BinOp):
+                continue
             try:
-                P = sym.to_poly(st.value, opaque=False)
+                P = sym.to_poly(node, opaque=False)
             except sym.NotPoly:
                 continue
-            if len(P.atoms()) == 2 and all(P.degree_in(a) == 1 for a in P.atoms()):
-                ends = sorted(P.atoms())
-    if len(loops) != 1 or ends is None:
-        _LOST.add("C14-R1")
-        ctx.fail("C14-R1", site, "ring: apex search loop and its two bracket ends (apex = (P1 + P2)/2) not found",
-                 f"{len(loops)} while loop(s); the apex height must be searched so that the requested angle defect is met")
+            ats = sorted(P.atoms())
+            if len(ats) == 2 and all(len(k) == 1 for k in P.t) and all(P.coeff(a) == Poly.const(Fraction(1, 2)) for a in ats) \
+                    and set(ats) <= rebound and ats not in pairs:
+                pairs.append(ats)
+        if len(pairs) == 1:
+            found = (mn, f, loops, pairs[0])
+            break
+    if found is None:
+        ctx.undecided("C14-R1", site, "ring: apex search loop and its two bracket ends (apex = (lo + hi)/2) not found",
+                      "no loop of ring (or of a helper it calls) rebinds two names whose mean is taken")
         return
-    loop = loops[0]
-    # initial heights of the two ends: literal Vec(0, 0, h) before the loop
+    mn, f, loops, ends = found
+    fsite = ctx.site(mn, f)
+    b = sym.Bindings(f)
+    loops = [lp for lp in loops if _end_updates(lp.body, ends)]
+    first_loop = min(loops, key=lambda l: l.lineno)
+    # initial heights of the two ends: literal numbers / Vec(0, 0, h) bound before the first loop
     init = {}
-    for st in fn.body:
-        if st is loop:
+    for st in au.stmts(f.body):
+        if st.lineno >= first_loop.lineno:
             break
         for name, v in sym.split_assign(st):
-            if name in ends and isinstance(v, ast.Call) and au.call_tail(v) == "Vec" and len(v.args) == 3:
-                h = order.fold_const(v.args[2])
-                if h is not None and order.fold_const(v.args[0]) == 0 and order.fold_const(v.args[1]) == 0:
+            if name in ends:
+                h = _height(v)
+                if h is None:
+                    init.pop(name, None)
+                    init[name] = None
+                else:
                     init[name] = h
-    if set(init) != set(ends):
-        _LOST.add("C14-R1")
-        ctx.fail("C14-R1", site, "ring: initial bracket of the apex search (two literal points on the axis) not found", f"ends {ends}, found {init}")
+    updates = []
+    for lp in loops:
+        updates += [(lp,) + u for u in _end_updates(lp.body, ends)]
+    if not updates:
+        ctx.undecided("C14-R1", fsite, "ring: the search loop never updates its bracket", "")
+        return
+    if set(init) != set(ends) or any(v is None for v in init.values()) or init[ends[0]] == init[ends[1]]:
+        ctx.undecided("C14-R1", fsite, "ring: initial bracket of the apex search (two literal heights on the axis) not found",
+                      f"found {init}")
         return
     upper = max(ends, key=lambda k: init[k])
-    # updates of the ends inside the loop
-    updates = []
-    for st in au.stmts(loop.body):
-        for name, v in sym.split_assign(st):
-            if name in ends:
-                updates.append((st, name, v))
-    if not updates:
-        _LOST.add("C14-R1")
-        ctx.fail("C14-R1", site, "ring: the search loop never updates its bracket", "")
-        return
-    extension = None
-    for st, name, v in updates:
+    extension, unknown = None, None
+    for lp, st, name, v, co in updates:
         e = G.fast_resolve(b, v, st, keep=tuple(ends))
         try:
             P = sym.to_poly(e, opaque=False)
         except sym.NotPoly:
             P = None
-        convex = False
-        if P is not None and P.atoms() <= set(ends) and all(len(k) == 1 for k in P.t):
-            cs = [P.coeff(a).const_value() for a in ends]
-            convex = sum(cs) == 1 and all(0 <= c <= 1 for c in cs)
+        if P is None or not P.atoms() <= set(ends) or not all(len(k) <= 1 for k in P.t):
+            unknown = unknown or (st, name)
+            continue
+        cs = [P.coeff(a).const_value() for a in ends]
+        convex = P.without(ends[0]).without(ends[1]).is_zero() and sum(cs) == 1 and all(0 <= c <= 1 for c in cs)
         if not convex and name == upper:
-            extension = (st, name, v)
+            extension = (lp, st, name, v)
     if extension is not None:
-        st, name, v = extension
-        # guard: target compared with the defect evaluated at the upper end, target larger
-        gl = au.guards(st, stop=loop)
-        tests = [t for t, pol in gl]
-        target = au.params(fn)[1] if len(au.params(fn)) > 1 else None
-        ok = False
-        for t, pol in gl:
-            if isinstance(t, ast.Compare) and len(t.ops) == 1:
-                l, r = t.left, t.comparators[0]
-                less = isinstance(t.ops[0], (ast.Lt, ast.LtE))
-                if not isinstance(t.ops[0], (ast.Lt, ast.LtE, ast.Gt, ast.GtE)):
-                    continue
-                if less == pol:      # `l < r` holding, or `l > r` failing:  r is the larger side
-                    l, r = r, l
-                # l > r : l is the target, r depends on the upper end
-                lr = G.fast_resolve(b, l, st, keep=(target,))
-                rr = G.fast_resolve(b, r, st, keep=tuple(ends))
-                if isinstance(l, ast.Name) and l.id == target and upper in au.names(rr) and not (set(ends) - {upper}) & au.names(rr):
-                    ok = True
-        ctx.check(ok, "C14-R1", ctx.site(RINGS, fn, st),
-                  "ring: the bracket extension is not taken exactly when the requested defect exceeds the defect at the upper end",
-                  f"`{au.src(st)}` under {[au.src(t) for t in tests]}: the upper end must grow when (and only when) the target lies above it",
-                  note=f"ring: `{au.src(st)}` extends the bracket when the target exceeds the defect at {upper}")
+        lp, st, name, v = extension
+        params = set(au.params(f))
+        verdicts = []
+        for t, pol in au.conditions(st):
+            if not (isinstance(t, ast.Compare) and len(t.ops) == 1 and isinstance(t.ops[0], (ast.Lt, ast.LtE, ast.Gt, ast.GtE))):
+                continue
+            l, r = t.left, t.comparators[0]
+            greater = isinstance(t.ops[0], (ast.Gt, ast.GtE)) == pol       # `l > r` holds
+            big, small = (l, r) if greater else (r, l)
+            # one side is the requested defect (a parameter of the search function), the other a defect evaluated at an end
+            for target, other, target_is_big in ((big, small, True), (small, big, False)):
+                if isinstance(target, ast.Name) and target.id in params and not (au.names(other) & params & {target.id}):
+                    a = _assoc(f, b, other, st, ends, upper)
+                    verdicts.append((a, target_is_big, t))
+        good = [x for x in verdicts if x[0] == "upper" and x[1]]
+        wrong = [x for x in verdicts if x[0] in ("upper", "lower") and not (x[0] == "upper" and x[1])]
+        s = ctx.site(mn, f, st)
+        if good:
+            ctx.ok("C14-R1", s, "ring: the upper bracket end is extended when the target exceeds the defect at the upper end")
+        elif wrong:
+            a, big_, t = wrong[0]
+            ctx.fail("C14-R1", s, "ring: the bracket extension is not taken exactly when the requested defect exceeds the defect at the upper end",
+                     f"the extension of the upper end runs under `{au.src(t)}`" + (" taken as false" if not dict(au.conditions(st)).get(t, True) else "") +
+                     f", which compares the target with the defect at the {a} end as {'larger' if big_ else 'smaller'}: "
+                     f"the upper end must grow when (and only when) the target lies above it")
+        else:
+            ctx.undecided("C14-R1", s, "ring: the condition of the bracket extension is not recognised",
+                          f"conditions {[au.src(t) for t, p in au.conditions(st)]}")
         return
-    # shrink-only loop: the initial bracket must already contain every admissible apex
+    if unknown is not None:
+        ctx.undecided("C14-R1", ctx.site(mn, f, unknown[0]), "ring: an update of the apex bracket is not an affine form of its two ends", "")
+        return
+    # shrink-only search: the initial bracket must already contain every admissible apex
     # admissible defects: the clamp  defect = max(min(defect, C), 0)  gives the largest one, C = 2*pi - eps
     eps = None
-    target = au.params(fn)[1] if len(au.params(fn)) > 1 else None
-    for c in au.calls(fn):
-        if au.call_tail(c) == "min" and len(c.args) == 2 and any(isinstance(a, ast.Name) and a.id == target for a in c.args) \
-                and c.lineno < loop.lineno:
-            other = [a for a in c.args if not (isinstance(a, ast.Name) and a.id == target)]
-            cst = order.fold_const(G.fast_resolve(b, other[0], c)) if other else None
-            if cst is not None and cst < 2 * math.pi:
-                eps = 2 * math.pi - cst
+    for mn2, f2 in reachable(ctx, RINGS, fn):
+        b2 = sym.Bindings(f2)
+        ps2 = set(au.params(f2))
+        for c in au.calls(f2):
+            if au.call_tail(c) in ("min", "minimum", "clip") and len(c.args) >= 2 and any(isinstance(a, ast.Name) and a.id in ps2 for a in c.args):
+                for a in c.args:
+                    cst = order.fold_const(G.fast_resolve(b2, a, c))
+                    if cst is not None and 0 < cst < 2 * math.pi:
+                        eps = 2 * math.pi - cst
     H = init[upper]
     need = math.sqrt(max((2 * math.pi / eps) ** 2 - 1, 0)) if eps else float("inf")
     wit = ""
@@ -895,17 +783,254 @@ def r1_ring_bracket(ctx):
         th = math.acos((math.cos(2 * math.pi / N) + H * H) / (1 + H * H))
         wit = (f"; witness N={N}: the largest defect reachable with the apex at height {H:g} is {2 * math.pi - N * th:.4f}, "
                f"any larger requested defect (up to {2 * math.pi - (eps or 0):.4f}) gets that apex instead of its own")
-    ctx.check(H >= need, "C14-R1", ctx.site(RINGS, fn, loop),
+    ctx.check(H >= need, "C14-R1", ctx.site(mn, f, first_loop),
               "ring: the apex search only shrinks its initial bracket, which does not contain every admissible apex height",
-              f"every update of {ends} is a convex combination of the two ends, so the apex stays below the initial height {H:g}; "
+              f"every update of the two bracket ends is a convex combination of them, so the apex stays below the initial height {H:g}; "
               f"defects up to 2*pi-{eps if eps else '?'} need heights up to {need:.1f}" + wit,
               note=f"ring: fixed bracket up to {H:g} covers all admissible defects")
+
+
+# ----------------------------------------------------------------------- C14-M1
+MUTATORS = ("append", "extend", "insert", "pop", "remove", "sort", "reverse", "clear", "fill", "resize", "put", "itemset", "update",
+            "add", "discard", "setdefault", "popitem")
+
+
+def _shared_sources(mod):
+    """module-level data: name -> 'array' | 'list' | 'dict';  names of functions whose result is cached"""
+    tables, cached = {}, set()
+    for st in mod.tree.body:
+        if isinstance(st, (ast.Assign, ast.AnnAssign)) and st.value is not None:
+            tg = st.targets if isinstance(st, ast.Assign) else [st.target]
+            v = st.value
+            kind = None
+            if isinstance(v, (ast.List, ast.ListComp)):
+                kind = "list"
+            elif isinstance(v, (ast.Dict, ast.DictComp)) or (isinstance(v, ast.Call) and au.call_tail(v) in ("dict", "defaultdict", "OrderedDict")):
+                kind = "dict"
+            elif isinstance(v, ast.Call) and au.call_tail(v) in ("array", "asarray", "zeros", "ones", "empty", "full", "arange", "linspace", "stack", "vstack"):
+                kind = "array"
+            elif isinstance(v, ast.Call) and au.call_tail(v) == "list":
+                kind = "list"
+            if kind:
+                for t in tg:
+                    if isinstance(t, ast.Name):
+                        tables[t.id] = kind
+        elif isinstance(st, (ast.FunctionDef, ast.AsyncFunctionDef)):
+            for d in st.decorator_list:
+                dn = d.func if isinstance(d, ast.Call) else d
+                c = au.chain(dn)
+                if c and c[-1] in ("lru_cache", "cache", "cached", "memoize"):
+                    cached.add(st.name)
+    # module globals filled lazily inside a function (`global T; T = np.array(...)`)
+    for fn in mod.funcs.values():
+        gl = {n for st in au.stmts(fn.body) if isinstance(st, ast.Global) for n in st.names}
+        for st in au.stmts(fn.body):
+            for name, v in sym.split_assign(st):
+                if name in gl:
+                    k = _table_kind(v)
+                    if k:
+                        tables[name] = k
+    return tables, cached
+
+
+def _table_kind(v):
+    if isinstance(v, (ast.List, ast.ListComp)) or (isinstance(v, ast.Call) and au.call_tail(v) == "list"):
+        return "list"
+    if isinstance(v, (ast.Dict, ast.DictComp)) or (isinstance(v, ast.Call) and au.call_tail(v) in ("dict", "defaultdict", "OrderedDict")):
+        return "dict"
+    if isinstance(v, ast.Call) and au.call_tail(v) in ("array", "asarray", "zeros", "ones", "empty", "full", "arange", "linspace", "stack", "vstack"):
+        return "array"
+    return None
+
+
+def _ownership(d, tables, cached, repo, modname, local_shadow):
+    """relation of the object denoted by the resolved expression `d` to shared state:
+    ('alias', what) the shared object itself / a view of it; ('shallow', what) a new outer object sharing the inner ones;
+    ('own', what) a private copy; None: not derived from shared state (or unknown)"""
+    if isinstance(d, ast.Name):
+        if d.id in tables and d.id not in local_shadow:
+            return "alias", f"the module-level {tables[d.id]} `{d.id}`"
+        return None
+    if isinstance(d, ast.Subscript):
+        inner = _ownership(d.value, tables, cached, repo, modname, local_shadow)
+        if inner is None:
+            return None
+        k, what = inner
+        root = d.value
+        while isinstance(root, ast.Subscript):
+            root = root.value
+        rk = tables.get(root.id) if isinstance(root, ast.Name) else None
+        if isinstance(d.slice, ast.Slice):
+            if k == "alias":
+                return ("alias", f"a view of {what}") if rk == "array" else ("shallow", f"a slice copy of {what}")
+            return inner
+        # an entry of a shared container (a cached object, a row of a table) is shared as well
+        return ("alias", f"an entry of {what}") if k in ("alias", "shallow") else inner
+    if isinstance(d, ast.Attribute):
+        inner = _ownership(d.value, tables, cached, repo, modname, local_shadow)
+        if inner is None:
+            return None
+        return ("alias", f"`{d.attr}` of {inner[1]}") if inner[0] in ("alias", "shallow") else inner
+    if isinstance(d, ast.IfExp):
+        a = _ownership(d.body, tables, cached, repo, modname, local_shadow)
+        b = _ownership(d.orelse, tables, cached, repo, modname, local_shadow)
+        rank = {"alias": 0, "shallow": 1, "own": 2}
+        both = [x for x in (a, b) if x is not None]
+        return min(both, key=lambda x: rank[x[0]]) if both else None
+    if isinstance(d, ast.Call):
+        t = au.call_tail(d)
+        if isinstance(d.func, ast.Name):
+            r0 = repo.resolve(modname, d.func.id)
+            if r0 is not None and r0[0] == "external" and r0[2]:
+                t = r0[2]                      # the imported name, whatever its local alias
+        if isinstance(d.func, ast.Name) and d.func.id in cached and d.func.id not in local_shadow:
+            return "alias", f"the cached result of `{d.func.id}`"
+        if isinstance(d.func, ast.Name) and d.func.id in _HANDOUT.get(modname, {}) and d.func.id not in local_shadow:
+            k_, what_ = _HANDOUT[modname][d.func.id]
+            return k_, f"the value handed out by `{d.func.id}` ({what_})"
+        if isinstance(d.func, ast.Attribute) and t == "get" and d.args:
+            inner = _ownership(d.func.value, tables, cached, repo, modname, local_shadow)
+            return ("alias", f"an entry of {inner[1]}") if inner is not None and inner[0] in ("alias", "shallow") else None
+        arg = d.args[0] if d.args else (d.func.value if isinstance(d.func, ast.Attribute) and t in ("copy", "astype", "tolist") else None)
+        inner = _ownership(arg, tables, cached, repo, modname, local_shadow) if arg is not None else None
+        if inner is None:
+            return None
+        k, what = inner
+        if t in ("asarray", "asanyarray", "ascontiguousarray", "atleast_1d", "atleast_2d", "ravel", "reshape", "view", "squeeze", "transpose"):
+            return inner if k != "alias" else ("alias", what)
+        if t == "array" and any(kw_.arg == "copy" and au.const(kw_.value) is False for kw_ in d.keywords):
+            return inner       # np.array(x, copy=False) does not copy
+        if t in ("deepcopy", "array", "tolist", "astype") or (t == "copy" and isinstance(d.func, ast.Attribute) and F_is_np(d.func.value)):
+            return "own", f"a deep copy of {what}"
+        if t == "copy":
+            if isinstance(d.func, ast.Name):
+                r = repo.resolve(modname, d.func.id)
+                if r is not None and r[0] == "def":
+                    return "own", f"a copy of {what}"          # the package's own mesh copy
+                return "shallow", f"a shallow copy of {what}"   # copy.copy
+            root_kind = "array" if "array" in what else "list"
+            return ("own", f"a copy of {what}") if root_kind == "array" else ("shallow", f"a shallow copy of {what}")
+        if t in ("list", "tuple", "sorted", "reversed", "dict"):
+            return "shallow", f"a shallow copy of {what}"
+        return None
+    return None
+
+
+_HANDOUT = {}      # module name -> {helper name: ownership of what it returns}
+
+
+def _handouts(repo, mod, tables, cached):
+    """helpers of the module that return (an alias / a shallow copy of) shared state"""
+    from ..rules import hi_flow as F
+    out = {}
+    _HANDOUT[mod.name] = out
+    for q, fn in mod.funcs.items():
+        if "." in q:
+            continue
+        fl = F.Flow(fn)
+        gl = {n for st in au.stmts(fn.body) if isinstance(st, ast.Global) for n in st.names}
+        worst = None
+        for st in au.stmts(fn.body):
+            if isinstance(st, ast.Return) and st.value is not None:
+                d = fl.resolve(st.value, at=st, keep=tuple(gl))
+                own = _ownership(d, tables, cached, repo, mod.name, set(au.params(fn)) - gl)
+                if own is not None and own[0] in ("alias", "shallow"):
+                    if worst is None or (own[0] == "alias" and worst[0] != "alias"):
+                        worst = own
+        if worst is not None:
+            out[q] = worst
+    return out
+
+
+def F_is_np(e):
+    c = au.chain(e)
+    return bool(c) and c[0] in ("np", "numpy")
+
+
+def m1_shared_state(ctx):
+    from ..rules import hi_flow as F
+    for modname in PROC_MODULES:
+        mod = ctx.repo.module(modname)
+        tables, cached = _shared_sources(mod)
+        if not tables and not cached:
+            continue
+        _handouts(ctx.repo, mod, tables, cached)
+        for q, fn in mod.funcs.items():
+            fl = F.Flow(fn)
+            shadow = set(au.params(fn))
+            sites = []      # (stmt, root expression, nested?, description)
+            for st in au.stmts(fn.body):
+                if isinstance(st, ast.AugAssign) and isinstance(st.target, ast.Name):
+                    sites.append((st, st.target, False, f"`{au.src(st)[:60]}` updates it in place"))
+                for tg in au.assign_targets(st) if isinstance(st, (ast.Assign, ast.AugAssign)) else []:
+                    if isinstance(tg, ast.Subscript):
+                        nested = isinstance(tg.value, (ast.Attribute, ast.Subscript))
+                        sites.append((st, tg.value, nested, f"`{au.src(st)[:60]}` stores into it"))
+                if isinstance(st, ast.Expr) and isinstance(st.value, ast.Call) and isinstance(st.value.func, ast.Attribute) \
+                        and st.value.func.attr in MUTATORS:
+                    recv = st.value.func.value
+                    sites.append((st, recv, isinstance(recv, (ast.Attribute, ast.Subscript)), f"`{au.src(st)[:60]}` mutates it"))
+            for st, obj, nested, how in sites:
+                d = fl.resolve(D._load(obj), at=st)
+                own = _ownership(d, tables, cached, ctx.repo, mod.name, shadow)
+                if own is None:
+                    continue
+                kind, what = own
+                s_ = ctx.site(modname, fn, st)
+                # a direct store into a module-level dict is a cache fill, not a mutation of data
+                root = d
+                while isinstance(root, (ast.Subscript, ast.Attribute)):
+                    root = root.value
+                is_cache_fill = isinstance(d, ast.Name) and tables.get(d.id) == "dict" and not isinstance(st, ast.AugAssign) is False
+                if isinstance(d, ast.Name) and tables.get(d.id) == "dict":
+                    ctx.ok("C14-M1", s_, f"{q}: fills the module-level cache `{d.id}`")
+                    continue
+                if kind == "alias":
+                    ctx.fail("C14-M1", s_, f"{q} writes into shared state in place",
+                             f"{how}: the object is {what}; every later call (and every result returned earlier) sees the modified data")
+                elif kind == "shallow" and nested:
+                    ctx.fail("C14-M1", s_, f"{q} writes into shared state in place",
+                             f"{how}: the object is {what}, whose inner containers are still the shared ones")
+                else:
+                    ctx.ok("C14-M1", s_, f"{q}: writes into {what}")
 
 
 # ----------------------------------------------------------------------- C14-U1
 # icosahedron is deliberately not listed: there `radius` scales the canonical coordinates (+-1, +-phi, 0), whose norm is
 # sqrt(1 + phi^2) - documented as a scale factor only (doubtful, reported, not armed).
 UNIT_FUNCS = [(SHAPES, "cylinder"), (SHAPES, "torus"), (SHAPES, "sphere_uv"), (SHAPES, "sphere_fibonacci"), (SHAPES, "icosphere")]
+
+
+def _vertex_store(st):
+    if isinstance(st, ast.Expr) and isinstance(st.value, ast.Call) and isinstance(st.value.func, ast.Attribute) \
+            and st.value.func.attr in ("append", "extend") and isinstance(st.value.func.value, ast.Attribute) and st.value.func.value.attr == "vertices":
+        return True
+    if isinstance(st, ast.AugAssign) and isinstance(st.target, ast.Attribute) and st.target.attr == "vertices":
+        return True
+    if isinstance(st, ast.Assign) and any(isinstance(t, ast.Subscript) and isinstance(t.value, ast.Attribute) and t.value.attr == "vertices" for t in st.targets):
+        return True
+    return False
+
+
+def _reaches_vertices(fn, node):
+    """does the value computed at `node` (a radius * direction product) flow into the vertex coordinates of the generator?
+    (obligations recorded inside helper functions are kept: a helper that scales a direction by the radius exists for that purpose)"""
+    from ..rules.c1120_util import assign_deps, closure
+    ln = getattr(node, "lineno", None)
+    if ln is None or not (fn.lineno <= ln <= getattr(fn, "end_lineno", ln)):
+        return True
+    st = au.enclosing_stmt(node)
+    if st is None or _vertex_store(st) or isinstance(st, ast.Return):
+        return True
+    seeds = set()
+    for s_ in au.stmts(fn.body):
+        if _vertex_store(s_) or isinstance(s_, ast.Return):
+            seeds |= au.names(s_)
+    rel = closure(assign_deps(fn), seeds)
+    bound = {n for t in au.assign_targets(st) for n in au.assigned_names(t)}
+    if isinstance(st, (ast.For, ast.AsyncFor)):
+        bound |= set(au.assigned_names(st.target))
+    return bool(bound & rel) or not bound
 
 
 def u1_unit_directions(ctx):
@@ -916,19 +1041,25 @@ def u1_unit_directions(ctx):
         it = D.Interp(fn, D.Config(geo, ctx.repo, key[0], unit=True)).run()
         radii = sorted(p for p, (d, a) in geo.items() if d == 1 and a == 0)
         obl = sorted(it.unit_obl.values(), key=lambda o: (o[0].lineno, o[0].col_offset, o[3]))
+        obl = [o for o in obl if _reaches_vertices(fn, o[0])]
         if not obl:
-            ctx.fail("C14-U1", site, f"{key[1]}: no direction scaled by {' / '.join(radii)} was found",
-                     "the radius must multiply a unit direction (or be the coefficient of a unit vector in explicit coordinates)")
+            ctx.undecided("C14-U1", site, f"{key[1]}: no direction scaled by {' / '.join(radii)} was found",
+                          "the radius must multiply a unit direction (or be the coefficient of a unit vector in explicit coordinates)")
             continue
-        for node, ok, kind, detail in obl:
+        for o in obl:
+            node, ok, kind, detail = o[:4]
+            refuted = o[4] if len(o) > 4 else None
             s = ctx.site(key[0], fn, node)
-            if kind == "radius-times-direction":
-                ctx.check(ok, "C14-U1", s, f"{key[1]}: the direction multiplied by the radius is not a proved unit vector",
-                          f"`{au.src(node)[:120]}`: `{detail[:100]}` is neither a normalisation, a rotation of a unit vector, nor a vector "
-                          f"whose squared components sum to 1 identically - the points are at distance radius*|d| instead of radius "
-                          f"(e.g. components (u.y, -u.x, 0) of a unit vector u have norm sqrt(1 - u.z^2))",
-                          note=f"{key[1]}: `{detail[:60]}` is a unit vector")
+            if ok:
+                ctx.ok("C14-U1", s, f"{key[1]}: `{detail[:60]}` is a unit vector")
+            elif refuted:
+                if kind == "radius-times-direction":
+                    ctx.fail("C14-U1", s, f"{key[1]}: the direction multiplied by the radius is not a unit vector",
+                             f"`{au.src(node)[:120]}`: the squared components of `{detail[:100]}` sum to `{refuted}`, not 1 - the points are at "
+                             f"distance radius*|d| instead of radius (e.g. components (u.y, -u.x, 0) of a unit vector u have norm sqrt(1 - u.z^2))")
+                else:
+                    ctx.fail("C14-U1", s, f"{key[1]}: the coefficient vector of a radius in the explicit coordinates is not a unit vector",
+                             f"`{au.src(node)[:80]}` with {detail[:160]}: its squared components sum to `{refuted}`, not 1")
             else:
-                ctx.check(ok, "C14-U1", s, f"{key[1]}: the coefficient vector of a radius in the explicit coordinates is not a unit vector",
-                          f"`{au.src(node)[:80]}` with {detail[:160]}: its squared components do not sum to 1",
-                          note=f"{key[1]}: {detail[:80]} is a unit vector")
+                ctx.undecided("C14-U1", s, f"{key[1]}: the norm of the direction multiplied by the radius is not derivable",
+                              f"`{au.src(node)[:120]}`: `{detail[:100]}` is neither proved to be a unit vector nor refuted")
